@@ -33,6 +33,7 @@ Theorem C08_accept_iff : forall keccak256 mpt_verify json_proof cs cstore oh op 
   exists h p, oh = Some h /\ op = Some p /\
     exists r rootb sp v t,
       height_lt (cs_head cs) h = false /\
+      rn h = rn (cs_head cs) /\
       json_proof p = Some r /\
       cstore (consensus_key h) = ConsRoot rootb /\
       delay_block cs <= sub64 (rh (cs_head cs)) (rh h) /\
@@ -44,10 +45,12 @@ Theorem C08_accept_iff : forall keccak256 mpt_verify json_proof cs cstore oh op 
       mpt_verify (a_storage (account_of_record r)) (keccak256 (proof_key keccak256 ack src dst seq))
                  (map from_hex (sr_proof sp)) = Some v /\
       rlp_decode_bytes v = Some t /\ left_pad32 t = c.
-Proof. exact verify_ok_iff. Qed.
+Proof. exact verify_ok_iff_plain. Qed.
 Print Assumptions C08_accept_iff.
 
-(** ** 2. Soundness.  Accepted => the gates the code checks hold, a consensus state with root [rootb] is
+(** ** 2. Soundness.  Accepted => the proof height has the head's revision number, is not above the head and
+    the (uint64) difference of the revision heights is at least [delay_block cs] (numeric reading, no
+    wrap-around: [C08_gates_numeric]); a consensus state with root [rootb] is
     stored under the key of exactly this height, and in EVERY world committed by that root the account
     at keccak(configured contract address) is the RLP of an account [acct] such that in EVERY storage trie
     committed by [acct]'s storage root the key keccak(keccak(path ++ pad32(208))) -- [path] rendered from
@@ -58,8 +61,8 @@ Theorem C08_evm_proof_sound : forall keccak256 mpt_verify json_proof commits,
   forall cs cstore oh op ack src dst seq c,
   verify keccak256 mpt_verify json_proof cs cstore oh op ack src dst seq c = Ok tt ->
   exists h p, oh = Some h /\ op = Some p /\
-    (* the head gate and the delay gate, as coded *)
-    ((rn h < rn (cs_head cs) \/ (rn h = rn (cs_head cs) /\ rh h <= rh (cs_head cs))) /\
+    (* the revision gate, the head gate and the delay gate, as coded *)
+    (rn h = rn (cs_head cs) /\ rh h <= rh (cs_head cs) /\
      delay_block cs <= sub64 (rh (cs_head cs)) (rh h)) /\
     exists rootb acct,
       cstore (consensus_key h) = ConsRoot rootb /\
@@ -72,17 +75,13 @@ Theorem C08_evm_proof_sound : forall keccak256 mpt_verify json_proof commits,
 Proof. exact sound. Qed.
 Print Assumptions C08_evm_proof_sound.
 
-(** What the two gates mean numerically for uint64 heights.  With the proof height in the head's
-    revision: not above the head and at least [delay_block] blocks below it.  With a LOWER revision
-    number the head gate is vacuous and the subtraction may wrap (third clause) -- see
-    Refuted/C08_refuted.v. *)
+(** What the gates mean numerically for a uint64 head: the subtraction cannot wrap, at least
+    [delay_block cs] blocks lie between the proof height and the head.  (Before fix 0ebe7e9 this needed
+    the premise "same revision number" -- Refuted/C08_refuted.v.) *)
 Theorem C08_gates_numeric : forall cs h,
-  h64 h -> h64 (cs_head cs) ->
-  (rn h < rn (cs_head cs) \/ (rn h = rn (cs_head cs) /\ rh h <= rh (cs_head cs))) /\
-  delay_block cs <= sub64 (rh (cs_head cs)) (rh h) ->
-  (rn h = rn (cs_head cs) -> rh h <= rh (cs_head cs) /\ delay_block cs <= rh (cs_head cs) - rh h) /\
-  (rh h <= rh (cs_head cs) -> delay_block cs <= rh (cs_head cs) - rh h) /\
-  (rh (cs_head cs) < rh h -> rn h < rn (cs_head cs) /\ delay_block cs <= two64 - (rh h - rh (cs_head cs))).
+  h64 (cs_head cs) ->
+  rn h = rn (cs_head cs) /\ rh h <= rh (cs_head cs) /\ delay_block cs <= sub64 (rh (cs_head cs)) (rh h) ->
+  rn h = rn (cs_head cs) /\ rh h <= rh (cs_head cs) /\ delay_block cs <= rh (cs_head cs) - rh h.
 Proof. exact gates_numeric. Qed.
 Print Assumptions C08_gates_numeric.
 
@@ -96,6 +95,7 @@ Print Assumptions C08_consensus_key_injective.
     the zero-stripped 32-byte value, is accepted once the gates are passed. *)
 Theorem C08_evm_proof_complete : forall keccak256 mpt_verify json_proof cs cstore h p r ack src dst seq c rootb sp,
   height_lt (cs_head cs) h = false ->
+  rn h = rn (cs_head cs) ->
   delay_block cs <= sub64 (rh (cs_head cs)) (rh h) ->
   json_proof p = Some r ->
   cstore (consensus_key h) = ConsRoot rootb ->
@@ -230,12 +230,19 @@ Theorem C08_no_consensus_state_rejected : forall keccak256 mpt_verify json_proof
 Proof. exact reject_no_consensus_state. Qed.
 Print Assumptions C08_no_consensus_state_rejected.
 
-(** height above the head (same or higher revision number) *)
+(** height above the head: rejected whatever the revision numbers *)
 Theorem C08_above_head_rejected : forall keccak256 mpt_verify json_proof cs cstore h p ack src dst seq c,
-  rn (cs_head cs) <= rn h -> (rn h = rn (cs_head cs) -> rh (cs_head cs) < rh h) ->
+  rh (cs_head cs) < rh h ->
   verify keccak256 mpt_verify json_proof cs cstore (Some h) (Some p) ack src dst seq c <> Ok tt.
 Proof. exact reject_above_head. Qed.
 Print Assumptions C08_above_head_rejected.
+
+(** height of another revision than the head's *)
+Theorem C08_other_revision_rejected : forall keccak256 mpt_verify json_proof cs cstore h p ack src dst seq c,
+  rn h <> rn (cs_head cs) ->
+  verify keccak256 mpt_verify json_proof cs cstore (Some h) (Some p) ack src dst seq c <> Ok tt.
+Proof. exact reject_other_revision. Qed.
+Print Assumptions C08_other_revision_rejected.
 
 (** confirmation blocks not passed *)
 Theorem C08_unconfirmed_rejected : forall keccak256 mpt_verify json_proof cs cstore h p ack src dst seq c,
@@ -264,12 +271,12 @@ Theorem C08_oracle_footprint :
 Proof. exact verify_footprint. Qed.
 Print Assumptions C08_oracle_footprint.
 
-(** The executable monitor has nothing to report on an accepting step of the model (proof height in the
-    head's revision, ground truth = what the committed tries hold). *)
+(** The executable monitor has nothing to report on an accepting step of the model (ground truth = what the
+    committed tries hold). *)
 Theorem C08_monitor_sound : forall keccak256 mpt_verify json_proof commits,
   mpt_sound mpt_verify commits ->
   forall (c : ecase) (k : client_kind) h,
-  c_height c = Some h -> h64 h -> h64 (c_head c) -> rn h = rn (c_head c) ->
+  c_height c = Some h -> h64 (c_head c) ->
   gt_consistent keccak256 commits c k h ->
   EvmProof.verify keccak256 mpt_verify json_proof (cs_of c k) (cstore_of c) (c_height c) (c_proof c)
                   (c_ack c) (c_src c) (c_dst c) (c_seq c) (c_commitment c) = Ok tt ->
